@@ -144,9 +144,10 @@ PruneSet(c) ==
 \* entries of their own and keep naming the hash until a reader prunes it
 Expire(h) ==
     /\ ExpiryOn /\ h \in entry
-    /\ \A c \in Slots : run[c] = Idle \/ run[c].h # h
+    /\ \A c \in Slots : IF run[c] = Idle THEN TRUE ELSE run[c].h # h
     /\ entry' = entry \ {h}
-    /\ UNCHANGED <<list, run, mu, nops, last>>
+    /\ last' = [op |-> "expire", res |-> "ok", h |-> h, a |-> "none", out |-> <<>>]
+    /\ UNCHANGED <<list, run, mu, nops>>
 
 StepOf(c) ==
     \/ Lock(c) \/ Save1(c) \/ Save2(c) \/ SaveGet(c) \/ SaveSet(c)
@@ -178,7 +179,9 @@ C17_ListsExact ==
 
 \* only the receiver removes
 C17_OnlyReceiverRemoves ==
-    [][\A h \in entry \ entry' : \E c \in Slots : run[c] # Idle /\ run[c].op = "remove" /\ run[c].h = h /\ run[c].a = Rcv[h]]_vars
+    [][\A h \in entry \ entry' :
+          \/ \E c \in Slots : IF run[c] = Idle THEN FALSE ELSE run[c].op = "remove" /\ run[c].h = h /\ run[c].a = Rcv[h]
+          \/ last'.op = "expire" /\ last'.h = h]_vars
 
 TypeOK == \A a \in Addr : list[a] = Absent \/ \A i \in DOMAIN list[a] : list[a][i] \in Hash
 =============================================================================
